@@ -181,6 +181,8 @@ def make_search(mido, base, depth):
                 out.append(('copy', i))
                 for k in range(len(overrides)):
                     out.append(('copyov', i, k))
+                    if label.startswith('Message:') and k < 2:
+                        out.append(('copyskip', i, k))
                 out.append(('freeze', i))
                 out.append(('thaw', i))
                 if label.startswith('Message:'):
@@ -199,6 +201,23 @@ def make_search(mido, base, depth):
                     out.append(('pair', i, j))
         return out
 
+    FORMS = (tuple, list, lambda v: (x for x in v), lambda v: iter(list(v)),
+             lambda v: bytearray(v) if all(
+                 isinstance(x, int) and 0 <= x < 256 for x in v) else list(v))
+
+    REITERABLE = (tuple, list, FORMS[4])
+
+    def formed(s, pairs, oneshot=True):
+        # sequence values are handed over in a rotating container form
+        # (tuple, list, generator, iterator, bytearray).  One-shot iterables
+        # only where the property defines the outcome (copy with overrides ==
+        # fresh construction, which accepts them); what plain assignment of a
+        # generator stores is not covered by the statement.
+        s.nops = getattr(s, 'nops', 0) + 1
+        forms = FORMS if oneshot else REITERABLE
+        return {k: (forms[(s.nops + len(s.pool)) % len(forms)](v)
+                    if isinstance(v, tuple) else v) for k, v in pairs}
+
     def ref_apply(s, op, obs):
         """Update the reference pool assuming the op did what it should."""
         k = op[0]
@@ -206,7 +225,7 @@ def make_search(mido, base, depth):
         (cls, frozen), d = s.ref[i]
         if k == 'copy':
             s.ref.append(((cls, frozen), dict(d)))
-        elif k == 'copyov':
+        elif k in ('copyov', 'copyskip'):
             nd = dict(d)
             for name, v in overrides[op[2]]:
                 nd[name] = tuple(v) if isinstance(v, (list, tuple)) else v
@@ -238,7 +257,10 @@ def make_search(mido, base, depth):
                 new = obj.copy()
                 obs = ('new', new)
             elif k == 'copyov':
-                new = obj.copy(**dict(overrides[op[2]]))
+                new = obj.copy(**formed(s, overrides[op[2]]))
+                obs = ('new', new)
+            elif k == 'copyskip':
+                new = obj.copy(skip_checks=True, **formed(s, overrides[op[2]]))
                 obs = ('new', new)
             elif k == 'copybad':
                 new = obj.copy(**dict(inv_overrides[op[2]]))
@@ -256,7 +278,8 @@ def make_search(mido, base, depth):
                 obs = ('new', new)
             elif k == 'set':
                 name, v, ok = sets[op[2]]
-                setattr(obj, name, v)
+                setattr(obj, name, v if is_unknown else formed(
+                    s, [(name, v)], oneshot=False)[name])
                 obs = ('done', None)
             elif k == 'del':
                 delattr(obj, 'time')
@@ -284,7 +307,8 @@ def make_search(mido, base, depth):
             ref_apply(s, op, obs)
         elif obs[0] == 'done':
             ref_apply(s, op, obs)
-        elif obs[0] == 'raised' and k in ('copy', 'copyov', 'freeze', 'thaw', 'alt'):
+        elif obs[0] == 'raised' and k in ('copy', 'copyov', 'copyskip', 'freeze',
+                                          'thaw', 'alt'):
             # a failed constructor-like op adds nothing; record nothing
             pass
         return obs
@@ -380,6 +404,13 @@ def make_search(mido, base, depth):
                 return
             if f and type(vars(obj).get('data', ())) is list:
                 bad_('frozen-holds-list', f'object {j}')
+            if not isinstance(vars(obj).get('data', ()), tuple):
+                bad_('data-not-a-tuple',
+                     f'object {j} holds data of type '
+                     f'{type(vars(obj)["data"]).__name__}: not equal to a '
+                     f'freshly constructed message, and shared with whoever '
+                     f'passed it in')
+                return
 
     def key(s):
         ids = {}
